@@ -184,3 +184,11 @@ Definition oracle_live (c : lcase) : bool :=
      end.
 
 Definition both_live (c : lcase) : bool := agree_live c && oracle_live c.
+
+(** Typed builders for the generated case files (a bare nested tuple literal makes coqc spend its
+    time inferring the types of the empty lists). *)
+Definition mkS (W : Z) (wit : list N) (ops : list cop) : scase := (W, wit, ops).
+Definition mkL (W : Z) (h : list (Z * op)) (t : Z) (pid off : N)
+           (rec : bool) (sid pid' : N) (rooms frames : list N) (wf : bool) : lcase :=
+  (W, h, (t, pid, off), (rec, sid, pid', rooms, frames, wf)).
+Definition ev (t : Z) (o : op) : Z * op := (t, o).
